@@ -269,7 +269,7 @@ def run_apalache(workdir, module, constants, inv="Inv", length=1, timeout=900):
     try:
         p = subprocess.run(["apalache-mc", "check", "--config=" + cfg, "--length=%d" % length, "--out-dir=" + out,
                             os.path.join(workdir, module + ".tla")], cwd=workdir, stdout=subprocess.PIPE, stderr=subprocess.STDOUT,
-                           text=True, timeout=timeout)
+                           text=True, timeout=timeout, env=dict(os.environ, TMPDIR=workdir))     # (its wrapper makes a temp dir: inside the scratch)
     except (subprocess.TimeoutExpired, FileNotFoundError) as e:
         raise MachineryError("apalache failed on %s: %r" % (module, e))
     wall = time.time() - t0
